@@ -1,0 +1,50 @@
+// SPDX-FileCopyrightText: 2026 The Pion community <https://pion.ly>
+// SPDX-License-Identifier: MIT
+
+//go:build verif
+
+package gcc
+
+import (
+	"time"
+
+	"github.com/pion/interceptor/internal/cc"
+)
+
+// C12QueueLen returns the number of queued packets of the leaky bucket pacer
+// (property C12). Only compiled with the "verif" build tag.
+func C12QueueLen(p *LeakyBucketPacer) int {
+	p.qLock.RLock()
+	defer p.qLock.RUnlock()
+
+	return p.queue.Len()
+}
+
+// C12Ack is one acknowledgment for C12RunRateCalculator.
+type C12Ack struct {
+	Size    int
+	Arrival time.Time
+}
+
+// C12RunRateCalculator feeds the batches to rateCalculator.run and returns the published rates.
+func C12RunRateCalculator(window time.Duration, batches [][]C12Ack) []int {
+	c := newRateCalculator(window)
+	in := make(chan []cc.Acknowledgment)
+	var rates []int
+	done := make(chan struct{})
+	go func() {
+		c.run(in, func(r int) { rates = append(rates, r) })
+		close(done)
+	}()
+	for _, b := range batches {
+		acks := make([]cc.Acknowledgment, len(b))
+		for i, a := range b {
+			acks[i] = cc.Acknowledgment{Size: a.Size, Arrival: a.Arrival}
+		}
+		in <- acks
+	}
+	close(in)
+	<-done
+
+	return rates
+}
